@@ -83,6 +83,19 @@ def remember_int(value):
     return sym_int(value)
 
 
+def nested_conv(value):
+    """a datatype built on ZConfig's own machinery: it refuses everything that does not start with a digit by
+    raising a DataConversionError OF ITS OWN (carrying a position inside whatever it parsed); the instance
+    is remembered in LAST"""
+    import ZConfig
+    from .symstr import is_ascii_digit
+    if len(value) > 0 and is_ascii_digit(value[0]):
+        return value
+    e = ZConfig.DataConversionError(Refused('inner'), 'fragment', (7, 3, 'u:/nested.conf'))
+    LAST['exc'] = e
+    raise e
+
+
 # ---- C19: counting datatypes with an injectable failure point
 COUNTER = {'n': 0, 'fail_at': None, 'sn': 0, 'sfail_at': None}
 
